@@ -52,7 +52,8 @@ NoRecv == [complete |-> FALSE, len |-> -1]
 
 SInit == [w |-> "?", graceful |-> 0, shutdownTo |-> 0, prelisten |-> TRUE,
           trigAt |-> -1, src |-> "", conns |-> Empty, apps |-> Empty, reqs |-> Empty,
-          recv |-> Empty, serveAt |-> -1, winddown |-> FALSE]
+          recv |-> Empty, serveAt |-> -1, winddown |-> FALSE,
+          lifeUp |-> FALSE, shutRecv |-> 0, lifeEnd |-> ""]
 
 Conn(s, c) == Get(s.conns, c, NoConn)
 App(s, a)  == Get(s.apps, a, NoApp)
@@ -110,8 +111,12 @@ Clauses(s, ev) ==
              THEN <<F("cut-short", s.w \o "/finished-within-grace")>> ELSE <<>>)
             \o StillRunning(s, ev.now)
        [] ev.e = "serve_done" ->
-            IF Trig(s) /\ ev.now > s.trigAt + s.graceful + s.shutdownTo + SLACK
-            THEN <<F("unbounded-shutdown", Situation(s))>> ELSE <<>>
+            (IF Trig(s) /\ ev.now > s.trigAt + s.graceful + s.shutdownTo + SLACK
+             THEN <<F("unbounded-shutdown", Situation(s))>> ELSE <<>>)
+            \* "... cancels what remains, runs lifespan shutdown, and returns": the application had started up
+            \* and was still waiting for the shutdown message when serve() returned without delivering it
+            \o (IF Trig(s) /\ ev.outcome = "return" /\ s.lifeUp /\ s.shutRecv = 0 /\ s.lifeEnd \in {"", "cancelled"}
+                THEN <<F("lifespan-shutdown-skipped", Situation(s))>> ELSE <<>>)
        [] ev.e = "final" ->
             (IF Trig(s) /\ s.serveAt < 0 THEN <<F("unbounded-shutdown", Situation(s))>> ELSE <<>>)
             \o StillRunning(s, ev.now)
@@ -154,6 +159,10 @@ Step(s, ev) ==
                            !.apps = [a \in DOMAIN s.apps |->
                                         [s.apps[a] EXCEPT !.atTrig = ~s.apps[a].done]]]
       [] ev.e = "serve_done" -> [s EXCEPT !.serveAt = ev.now]
+      [] ev.e = "life_send" ->
+            IF ev.type = "lifespan.startup.complete" /\ ev.outcome = "ok" THEN [s EXCEPT !.lifeUp = TRUE] ELSE s
+      [] ev.e = "life_recv" -> IF ev.type = "lifespan.shutdown" THEN [s EXCEPT !.shutRecv = @ + 1] ELSE s
+      [] ev.e = "life_done" -> [s EXCEPT !.lifeEnd = ev.how]
       [] ev.e = "winddown" -> [s EXCEPT !.winddown = TRUE]
       [] OTHER -> s
 
